@@ -89,6 +89,8 @@ def _build(names, cmap, fea=None, upem=1000, seedshape=0, req=None):
                     ls.FeatureIndex.remove(fi); ls.ReqFeatureIndex = fi; ls.FeatureCount = len(ls.FeatureIndex)
     return f
 
+_LANGS = {"AZE": "az", "CRT": "crh", "KAZ": "kk", "TRK": "tr", "ROM": "ro", "PLK": "pl", "NLD": "nl", "SRB": "sr"}   # OpenType tag -> BCP 47
+
 def sweeps(tier, rng):
     from fontTools.ttLib import TTFont
     from fontTools.merge import Merger
@@ -107,6 +109,9 @@ def sweeps(tier, rng):
             ]
             for it in range(n + len(directed)):
                 k = rng.randint(2, 3); fonts = []; disjoint = rng.chance(50)
+                # a third of the merges: every input declares the SAME script with its own language systems, in any order
+                langmode = it < n and it % 3 == 1; langs_of = {}
+                if langmode: disjoint = True
                 if it >= n:
                     disjoint = True
                     for fi, (gn, base, fea, req) in enumerate(directed[it - n]):
@@ -124,7 +129,12 @@ def sweeps(tier, rng):
                     cm = {base + j: nm for j, nm in enumerate(names[1:]) if rng.chance(80)}
                     fea = None; req = None
                     gs = [nm for nm in names[1:]]
-                    if len(gs) >= 3 and rng.chance(70):
+                    if langmode and len(gs) >= 3:
+                        mine = rng.sample(sorted(_LANGS), rng.randint(1, 3)); langs_of[fi] = [_LANGS[t] for t in mine]
+                        fea = "languagesystem DFLT dflt; languagesystem latn dflt; " + " ".join("languagesystem latn %s;" % t for t in mine) + "\n"
+                        fea += "feature locl { script latn; " + " ".join("language %s; sub %s by %s;" % (t, gs[0], gs[1 + j % (len(gs) - 1)]) for j, t in enumerate(mine)) + " } locl;\n"
+                        if rng.chance(50): fea += "feature liga { sub %s %s by %s; } liga;" % (gs[1], gs[0], gs[2])
+                    elif len(gs) >= 3 and rng.chance(70):
                         script = ["latn", "cyrl", "grek"][fi] if rng.chance(60) else "latn"
                         a_, b_, c_ = gs[0], gs[1], gs[2]
                         feats = []
@@ -163,14 +173,13 @@ def sweeps(tier, rng):
                             import itertools
                             texts = ["".join(map(chr, t)) for r_ in (2, 3) for t in itertools.product(cps, repeat=r_)] if len(cps) <= 5 else \
                                     ["".join(chr(rng.choice(cps)) for _ in range(rng.randint(2, 5))) for _ in range(12)] + ["".join(map(chr, t)) for t in itertools.product(cps[:7], repeat=2)]
-                            for text in texts:
-                                s0 = [(h.outline(h.font.get_nominal_glyph(0) or 0) and None)] and None
-                                a = h.shape(text); b = hm.shape(text)
+                            for text, lang in [(t_, None) for t_ in texts] + [(t_, l_) for l_ in langs_of.get(i, []) for t_ in texts[:40]]:
+                                a = h.shape(text, language=lang); b = hm.shape(text, language=lang)
                                 # compare by advances + outlines (names are renamed by the merge)
                                 def sig(hf, res_):
                                     return [(hf.outline(hf.order.index(g) if g in hf.order else 0), adv, xo, yo) for g, adv, _, xo, yo in res_]
                                 if sig(h, a) != sig(hm, b):
-                                    bad = "text %r of input %d shapes differently after the merge: %r -> %r" % (text, i, a, b); break
+                                    bad = "text %r (language %r) of input %d shapes differently after the merge: %r -> %r" % (text, lang, i, a, b); break
                             if bad: break
                 except Exception as e:
                     import traceback
